@@ -264,6 +264,104 @@ def sink_forwarding(ctx, prog):
     ctx.floor('T-SINK.all', 'forwarding Write impls', n, 2 + (2 if has_alloc else 0) + (1 if prog.feature('std') else 0))
 
 
+def cursor_fit(ctx, prog):
+    """T-CURSOR.fit: outcome table of each Cursor impl over (capacity, position <= capacity, len(buf)), the inner slice write inlined
+    (it is T-SLICEWRITE's subject): len(buf) <= capacity - position  =>  Ok, position += len(buf), exactly one copy of buf into the
+    bytes at the position; otherwise Err, position unchanged, nothing copied.  So a full cursor still accepts an empty write, an
+    exactly fitting encoding succeeds, and a rejected write leaves no trace."""
+    has_alloc = prog.feature('alloc') or prog.feature('std')
+    n = 0
+    for path in CURSORS:
+        if 'Box<' in path and not has_alloc:
+            continue
+        inst = prog.one(path)
+        if inst is None:
+            ctx.fail_closed('T-CURSOR.fit', path + ' not found')
+            continue
+        label = inst.get('impl_self') or path
+        where = mir.loc(inst['sp'])
+        m = Machine(prog, prims=prims.P)
+        st = State()
+        body = inst['body']
+        names = dict((l, n_) for l, n_ in body['names'])
+        args = [m.make_value(st, body['locals'][i], names.get(i, 'a%d' % i)) for i in range(1, body['argc'] + 1)]
+        sv = st.mem.get(('arg', 'self'))
+        if not (isinstance(sv, Adt) and len(sv.fields) == 2):
+            ctx.fail_closed('T-CURSOR.fit', '%s: unexpected cursor value %r' % (label, sv))
+            continue
+        # the storage as a slice of symbolic capacity (array: its const length; box / reference: a fresh length)
+        f0 = sv.fields[0]
+        if isinstance(f0, Slice) and isinstance(f0.len, Int):
+            cap = f0.len
+        elif 'N]' in label:
+            cap = None        # [u8; N]: the interpreter names the array length const:N itself
+        else:
+            cap = Int.sym(m.new_sym(st, 'cap', 'usize', ((0, 1 << 40),)))
+            st.mem[('arg', 'self')] = Adt(sv.adt, sv.variant, [Slice(None, 'self*.0*', cap), sv.fields[1]])
+        for sy in list(st.ranges):
+            if sy in ('self*.1', 'buf.len') or sy.endswith('.len'):
+                st.ranges[sy] = ((0, 1 << 40),)
+        capname = repr(cap) if cap is not None else 'const:N'
+        if cap is None:
+            st.ranges['const:N'] = ((0, 1 << 40),)
+            st.symty['const:N'] = 'usize'
+            cap = Int.sym('const:N')
+        st.extra['known'] = {'Le(self*.1,%s)' % capname: 1}      # invariant of the position (T-CURSOR: it has no other writer)
+        try:
+            outs = m.run(inst, args, st)
+        except Abort as e:
+            ctx.fail_closed('T-CURSOR.fit', '%s cannot be summarised: %s' % (label, e))
+            continue
+        n += 1
+        pos, need = Int.sym('self*.1'), Int.sym('buf.len')
+        room = lin_add(cap, pos, -1)
+        for site, rec in m.assert_sites.items():
+            if rec['open'] or rec['fail']:
+                ctx.violation('T-CURSOR.fit', label + '|panic|' + rec['kind'], 'a write can panic (%s)' % rec['kind'], mir.loc(rec.get('sp')) or where)
+        seen = {'fit': 0, 'nofit': 0}
+        for o in outs:
+            if o.kind != 'return':
+                ctx.violation('T-CURSOR.fit', label + '|diverge', 'write_all can diverge: %s' % o.why, where)
+                continue
+            opq = sorted(f for f in o.st.flags if f.startswith('opaque:'))
+            if opq:
+                ctx.violation('T-CURSOR.fit', label + '|opaque', 'the write goes through %s, which the analysis cannot follow (its panic freedom and effect are not established)' % opq[0][7:], where)
+                continue
+            fits = m.compare(o.st, 'Le', need, room)
+            v = o.value
+            isok = isinstance(v, Adt) and norm_adt(v.adt) == RESULT and v.variant == 0
+            selfv = o.st.mem.get(('arg', 'self'))
+            posv = selfv.fields[1] if isinstance(selfv, Adt) and len(selfv.fields) > 1 else None
+            copies = o.st.extra.get('copies', ())
+            if not (isinstance(fits, Int) and fits.is_const()):
+                ctx.violation('T-CURSOR.fit', label + '|undecided|' + ('ok' if isok else 'err'), 'a path returns %s without having established whether len(buf) <= capacity - position (facts: %s)' % (
+                    'Ok' if isok else 'Err', sorted((o.st.extra.get('known') or {}).items())), where)
+                continue
+            if fits.c:
+                seen['fit'] += 1
+                if not isok:
+                    ctx.violation('T-CURSOR.fit', label + '|exact-fit', 'a write that fits the remaining capacity is rejected', where)
+                elif posv != lin_add(pos, need, 1):
+                    ctx.violation('T-CURSOR.fit', label + '|advance', 'after a fitting write the position is %r, expected position + len(buf)' % (posv,), where)
+                elif len(copies) != 1 or copies[0][1] != repr(need) or copies[0][2] != "'buf*'" or 'self*.1..' not in copies[0][0]:
+                    ctx.violation('T-CURSOR.fit', label + '|copy', 'a fitting write copies %r; expected exactly buf into the bytes at the position' % (copies,), where)
+                else:
+                    ctx.ok('T-CURSOR.fit', label + '|fits')
+            else:
+                seen['nofit'] += 1
+                if isok:
+                    ctx.violation('T-CURSOR.fit', label + '|overrun', 'a write longer than the remaining capacity reports success', where)
+                elif copies:
+                    ctx.violation('T-CURSOR.fit', label + '|partial', 'bytes are copied although the write does not fit', where)
+                elif posv != pos:
+                    ctx.violation('T-CURSOR.fit', label + '|advance-on-error', 'a rejected write moves the position to %r' % (posv,), where)
+                else:
+                    ctx.ok('T-CURSOR.fit', label + '|rejects')
+        if not (seen['fit'] and seen['nofit']):
+            ctx.violation('T-CURSOR.fit', label + '|paths', 'expected a fitting and a non-fitting path (found %r)' % seen, where)
+    ctx.floor('T-CURSOR.fit', 'cursor impls', n, 3 if has_alloc else 2)
+
+
 def is_encode_root(i):
     p = i['path']
     if i['krate'] != 'minicbor':
@@ -337,6 +435,8 @@ def run(ctx):
     slice_write(ctx, prog)
     ctx.rules_run.append('T-CURSOR: the three Cursor impls advance the position by exactly len(buf) and only on success; the position has no other writer')
     cursor_tables(ctx, prog)
+    ctx.rules_run.append('T-CURSOR.fit: outcome table of each Cursor impl over (capacity, position, len(buf)) with the inner slice write inlined: fits <=> Ok + position advanced + one copy at the position; otherwise Err with no trace; no panic')
+    cursor_fit(ctx, prog)
     ctx.rules_run.append('T-SINK.all: every other Write impl (forwarding &mut W, Vec<u8>, the std::io adapter, cursors) hands the whole buffer to an all-or-nothing sink operation exactly once before reporting success; partial-write APIs are violations')
     sink_forwarding(ctx, prog)
     ctx.rules_run.append('F-PANIC(encode): panic-site census over the encoding entry set; no unsafe in the write path')
@@ -346,6 +446,27 @@ def run(ctx):
     for k in sorted(reach0, key=lambda k: (prog.get(k)['depth'], len(k), k)):
         by_path.setdefault(prog.get(k)['path'], k)
     reach = set(by_path.values())
+    # the bounded sinks (the slice impl, the three cursors and private helpers only they use) have their own panic obligation:
+    # T-SLICEWRITE / T-CURSOR.fit interpret them whole under the position invariant and report any assert left open - so a
+    # helper outlined from a cursor impl does not need a table row of its own
+    callers = {}
+    for inst in prog.insts.values():
+        if inst['krate'] != 'minicbor':
+            continue
+        for bi, t in mir.iter_calls(inst['body']):
+            f = t.get('f') or {}
+            cp = f.get('rpath') or f.get('path')
+            if cp and cp != inst['path']:
+                callers.setdefault(cp, set()).add(inst['path'])
+    only_sinks = set(CURSORS) | {SLICE_WRITE}
+    grew = True
+    while grew:
+        grew = False
+        for cp, cs in callers.items():
+            if cp not in only_sinks and cp.startswith('minicbor::') and cs and cs <= only_sinks:
+                only_sinks.add(cp)
+                grew = True
+    reach = set(k for k in reach if prog.get(k)['path'] not in only_sinks)
     ctx.count('encode entry points', len(roots))
     c02.f_panic(ctx, prog, reach, 'encode', overrides={l1.WRITE_ALL: l1.write_all_prim}, rule='F-PANIC.enc')
     owners = set(u['owner'] for u in prog.unsafe_blocks if u['user'])
